@@ -851,8 +851,43 @@ func genC02Raw(seed uint64, tier string) Scenario {
 	return wrapMix("proto", s)
 }
 
+// genC02Bulk: a long-lived connection — a dozen calls and replies of about two
+// MiB each (tens of MiB in the thorough tier) on ONE connection: whatever the
+// endpoints keep per connection must not wear out with the volume.
+func genC02Bulk(g *Gen, tier string) Scenario {
+	s := &E2EScenario{Prop: "C02", Scripts: map[int]Script{}}
+	s.Config = sim.Config{Sched: g.IntN(3), StickPct: 99, PipeCap: []int{0, 65536, 1 << 20}[g.IntN(3)], ShortReads: g.IntN(2), MaxSteps: 4000000}
+	s.Service = genService(g, 1, "unix:@bulk")
+	block := g.BigString(60000 + g.IntN(10000))
+	huge := func() string {
+		n := 28 + g.IntN(10) // ~ 1.7 .. 2.6 MiB
+		return `{"huge":` + quote(strings.Repeat(block, n)+g.String(40)) + `}`
+	}
+	cl := E2EClient{Transport: g.Pick("stream", "stream", "bridge")}
+	n := 9 + g.IntN(3)
+	if tier == "thorough" {
+		n += g.IntN(12)
+	}
+	for i := 1; i <= n; i++ {
+		call := E2ECall{Cid: i, Method: s.Service.Ifaces[0].Name + ".M", Via: g.Pick("send", "call"), Params: withCid(i, huge())}
+		sc := Script{}
+		if call.Via == "send" && g.Pct(30) {
+			call.Flags = varlink.More
+			sc.Actions = append(sc.Actions, Action{Op: "reply", Continues: true, Params: huge()})
+		}
+		sc.Actions = append(sc.Actions, Action{Op: "reply", Params: huge()})
+		s.Scripts[i] = sc
+		cl.Calls = append(cl.Calls, call)
+	}
+	s.Clients = []E2EClient{cl}
+	return s
+}
+
 func genC02(seed uint64, tier string) Scenario {
 	g := NewGen(seed, 0xC02)
+	if g.IntN(1500) == 0 {
+		return genC02Bulk(g, tier)
+	}
 	if g.Pct(15) {
 		return genC02Raw(seed, tier)
 	}
